@@ -16,7 +16,7 @@ import traceback
 
 ROOT = os.path.dirname(os.path.dirname(os.path.abspath(__file__)))
 REPO = os.path.abspath(os.environ.get("VERIF_REPO", "/repo"))
-EVIDENCE_DIR = os.path.join(ROOT, "evidence")
+EVIDENCE_DIR = os.environ.get("VERIF_EVIDENCE_DIR") or os.path.join(ROOT, "evidence")
 REPLAY_DIR = os.path.join(ROOT, "replays")
 FINDINGS_FILE = os.path.join(ROOT, "KNOWN_FINDINGS.txt")
 NWORKERS = int(os.environ.get("VERIF_WORKERS", "16"))
@@ -159,8 +159,32 @@ def load_prop(pid):
     return mod
 
 
+def execute_rate(mod, case):
+    """Batch-level case: the fraction of seeds whose run ends in a given (known-finding) signature must stay
+    below a bound.  Deterministic: the seeds are derived from the recorded batch seed."""
+    rc = case["rate"]
+    pid = rc["property"]
+    hits = 0
+    examples = []
+    for i in range(rc["offset"], rc["offset"] + rc["n"]):
+        seed = derive(rc["verif_seed"], pid, i)
+        r = execute_case(mod, mod.generate(seed, rc.get("tier", "quick")))
+        if r["violation"] and r["violation"]["sig"] == rc["sig"]:
+            hits += 1
+            if len(examples) < 3:
+                examples.append({"run": i, "detail": r["violation"]["detail"]})
+    frac = hits / rc["n"]
+    if frac > rc["bound"]:
+        return {"violation": {"sig": rc["sig"] + "/rate-above-known-finding",
+                              "detail": {"hits": hits, "runs": rc["n"], "fraction": frac, "bound": rc["bound"], "examples": examples}},
+                "digest": "violation:rate", "stats": {}}
+    return {"violation": None, "digest": digest(["rate", hits]), "stats": {}}
+
+
 def execute_case(mod, case):
     """Run one case; returns dict(violation=None|{sig,detail}, digest, stats, ...)."""
+    if isinstance(case, dict) and "rate" in case:
+        return execute_rate(mod, case)
     try:
         res = mod.execute(case)
     except Violation as v:  # props may raise instead of returning
@@ -172,6 +196,72 @@ def execute_case(mod, case):
 
 
 # ------------------------------------------------------------------ minimisation
+def run_isolated(fn, *args):
+    """Run fn(*args) in a forked child and return its (picklable) result; the caller's process never runs it."""
+    import pickle
+
+    r, w = os.pipe()
+    child = os.fork()
+    if child == 0:
+        code = 0
+        try:
+            os.close(r)
+            try:
+                res = ("ok", fn(*args))
+            except BaseException as e:  # noqa
+                res = ("err", repr(e))
+            with os.fdopen(w, "wb") as f:
+                pickle.dump(res, f)
+        except BaseException:
+            code = 1
+        finally:
+            os._exit(code)
+    os.close(w)
+    with os.fdopen(r, "rb") as f:
+        data = f.read()
+    os.waitpid(child, 0)
+    if not data:
+        return ("err", "child died")
+    return pickle.loads(data)
+
+
+def _violation_of(pid, case):
+    mod = load_prop(pid)
+    r = execute_case(mod, case)
+    return r["violation"]
+
+
+def _same_isolated(pid, case, sig):
+    st, v = run_isolated(_violation_of, pid, case)
+    return st == "ok" and bool(v) and v["sig"] == sig
+
+
+def _minimise_in_child(pid, case, sig, max_tests):
+    mod = load_prop(pid)
+    small = minimise(mod, case, sig, max_tests=max_tests)
+    r = execute_case(mod, small)
+    if r["violation"] and r["violation"]["sig"] == sig:
+        return small, r["violation"]
+    r = execute_case(mod, case)
+    if r["violation"] and r["violation"]["sig"] == sig:
+        return case, r["violation"]
+    return None, None
+
+
+def minimise_isolated(pid, case, sig, max_tests=200):
+    """ddmin with every test in its own forked process (for code under test that carries state between runs)."""
+    budget = [max_tests]
+    case = json.loads(json.dumps(case))
+    if "ops" in case:
+        def test(ops):
+            c = dict(case)
+            c["ops"] = ops
+            return _same_isolated(pid, c, sig)
+
+        case["ops"] = ddmin_list(case["ops"], test, budget)
+    return case
+
+
 def _same(mod, case, sig):
     try:
         r = execute_case(mod, case)
@@ -179,6 +269,8 @@ def _same(mod, case, sig):
         return False
     except HarnessError:
         return False
+    except Exception:
+        return False  # a shrink candidate that is not a well-formed case
     v = r["violation"]
     return bool(v) and v["sig"] == sig
 
@@ -213,6 +305,8 @@ def ddmin_list(items, test, budget):
 
 
 def minimise(mod, case, sig, max_tests=1500):
+    if isinstance(case, dict) and "rate" in case:
+        return case  # batch-level case: nothing to shrink
     budget = [max_tests]
     case = json.loads(json.dumps(case))
     if "ops" in case:
@@ -313,8 +407,11 @@ def _worker(args):
             out["nontrivial"].append(res["digest"])
         if len(out["samples"]) < 1 and res.get("sample") is not None:
             out["samples"].append(res["sample"])
-        if res["violation"] and len(out["violations"]) < 40:
-            out["violations"].append((i, seed, case, res["violation"]))
+        if res["violation"]:
+            vc = out["stats"].setdefault("_viol_counts", {})
+            vc[res["violation"]["sig"]] = vc.get(res["violation"]["sig"], 0) + 1
+            if len(out["violations"]) < 40:
+                out["violations"].append((i, seed, case, res["violation"]))
     return out
 
 
@@ -401,14 +498,22 @@ def write_evidence(pid, tier, level, coverage, wall_s, violations, assumptions):
 
 
 # -------------------------------------------------------------- the check driver
-def determinism_selftest(pid, tier, n=24):
-    """Same seeds: in-process twice, and in a fresh interpreter with another hash seed."""
+def _det_twice(pid, n):
     mod = load_prop(pid)
     a, b = [], []
     for i in range(n):
         seed = run_seed(pid, 10_000_000 + i)
         a.append(execute_case(mod, mod.generate(seed, "quick"))["digest"])
         b.append(execute_case(mod, mod.generate(seed, "quick"))["digest"])
+    return a, b
+
+
+def determinism_selftest(pid, tier, n=24):
+    """Same seeds: in-process twice, and in a fresh interpreter with another hash seed."""
+    # in a forked child: the parent (from which the batch workers are forked) never executes the code under test
+    ctx = multiprocessing.get_context("fork")
+    with cf.ProcessPoolExecutor(max_workers=1, mp_context=ctx) as ex:
+        a, b = ex.submit(_det_twice, pid, n).result(timeout=1800)
     env = dict(os.environ)
     env["PYTHONHASHSEED"] = "12345"
     p = subprocess.run(
@@ -441,10 +546,11 @@ def run_check(pid, tier):
     known, _fixed = load_findings()
     print(f"[{pid}] tier={tier} VERIF_SEED={batch_seed()} repo={REPO} runs={cfg['runs']}", flush=True)
 
-    ok, det = determinism_selftest(pid, tier, n=cfg.get("det_seeds", 16))
-    if not ok:
-        print(f"[{pid}] HARNESS: determinism self-test failed: {det}", flush=True)
-        return EXIT_HARNESS
+    det_ok, det = determinism_selftest(pid, tier, n=cfg.get("det_seeds", 16))
+    if not det_ok:
+        # Either the harness or the code under test carries state from one run to the next.  Keep going: if the
+        # batch pins a violation that replays in a fresh interpreter it is reported; otherwise this is exit 2.
+        print(f"[{pid}] determinism self-test failed: {det}", flush=True)
 
     # stored replays of known findings: print the KNOWN-FINDING line if they still reproduce
     known_seen = []
@@ -499,12 +605,30 @@ def run_check(pid, tier):
         print(f"[{pid}] HARNESS: {len(merged['errors'])} run(s) raised inside the harness; first: run {i} seed {seed}\n{tb}", flush=True)
         return EXIT_HARNESS
 
-    # group violations by signature
+    viol_counts = merged["stats"].pop("_viol_counts", {})
+    # a listed known finding must stay as rare as documented: a surge is a different violation of the property
+    rate_viol = []
+    for sig, bound in getattr(mod, "KNOWN_RATE_BOUNDS", {}).items():
+        cnt = viol_counts.get(sig, 0)
+        if merged["runs"] >= 300 and cnt / merged["runs"] > bound:
+            case = {"rate": {"property": pid, "sig": sig, "n": 300, "offset": 0, "bound": bound, "tier": tier,
+                             "verif_seed": batch_seed()}}
+            st, v = run_isolated(_violation_of, pid, case)
+            if st == "ok" and v:
+                rate_viol.append((-1, batch_seed(), case, v))
+            else:
+                print(f"[{pid}] note: {sig} occurred in {cnt}/{merged['runs']} runs (bound {bound}) but the 300-run "
+                      f"replay batch stays below the bound", flush=True)
+    merged["violations"] = rate_viol + merged["violations"]
+    # group violations by signature (a few candidate cases per signature)
     by_sig = {}
     for i, seed, case, v in list(extra.get("violations", [])) + merged["violations"]:
-        by_sig.setdefault(v["sig"], (i, seed, case, v))
+        lst = by_sig.setdefault(v["sig"], [])
+        if len(lst) < 4:
+            lst.append((i, seed, case, v))
     nviol = 0
-    for sig, (i, seed, case, v) in sorted(by_sig.items()):
+    unreproducible = []
+    for sig, cands in sorted(by_sig.items()):
         k = match_known(pid, sig, known)
         if k:
             if k["sig"] not in known_seen:
@@ -514,18 +638,38 @@ def run_check(pid, tier):
         if nviol >= 6:
             nviol += 1
             continue
-        small = minimise(mod, case, sig, max_tests=cfg.get("min_tests", 800))
-        r = execute_case(mod, small)
-        if not r["violation"] or r["violation"]["sig"] != sig:
-            small, r = case, execute_case(mod, case)
-            if not r["violation"]:
-                print(f"[{pid}] HARNESS: violation {sig} (seed {seed}) does not re-execute", flush=True)
-                return EXIT_HARNESS
-        path = write_replay(pid, seed, small, r["violation"])
-        rc, out = replay_in_fresh_interpreter(path, hashseed="0")
-        if rc != EXIT_VIOLATION:
-            print(f"[{pid}] HARNESS: replay of {path} in a fresh interpreter gave exit {rc}\n{short(out, 1500)}", flush=True)
-            return EXIT_HARNESS
+        pinned = False
+        for i, seed, case, v in cands:
+            # a violation only counts when its replay file reproduces it in a fresh interpreter.  All executions of the
+            # code under test happen in forked children, so this process (and the children forked later) stay pristine.
+            st, res = run_isolated(_minimise_in_child, pid, case, sig, cfg.get("min_tests", 800))
+            tries = []
+            if st == "ok" and res[0] is not None:
+                tries.append(res)
+            for cand, viol in tries:
+                path = write_replay(pid, seed, cand, viol)
+                rc, out = replay_in_fresh_interpreter(path, hashseed="0")
+                if rc == EXIT_VIOLATION:
+                    pinned = True
+                    r = {"violation": viol}
+                    break
+            if not pinned and _same_isolated(pid, case, sig):
+                # the violation is real in a fresh process but minimisation was misled by state carried between runs
+                small = minimise_isolated(pid, case, sig, max_tests=120)
+                st, viol = run_isolated(_violation_of, pid, small)
+                if st == "ok" and viol and viol["sig"] == sig:
+                    path = write_replay(pid, seed, small, viol)
+                    rc, out = replay_in_fresh_interpreter(path, hashseed="0")
+                    if rc == EXIT_VIOLATION:
+                        pinned = True
+                        r = {"violation": viol}
+            if pinned:
+                break
+        if not pinned:
+            unreproducible.append(sig)
+            print(f"[{pid}] note: violation {sig} was seen in a worker but does not replay in a fresh interpreter "
+                  f"(state carried between runs?)", flush=True)
+            continue
         nviol += 1
         print(f"[{pid}] violation sig={sig} seed={seed} run={i}: {short(json.dumps(r['violation']['detail'], default=repr), 700)}", flush=True)
         print(f"VIOLATION property={pid} replay={path}", flush=True)
@@ -549,6 +693,7 @@ def run_check(pid, tier):
     sets = stats.pop("_sets", {})
     for k, v in sets.items():
         coverage["distinct_" + k] = len(v)
+    coverage["known_finding_hits"] = {k: v for k, v in viol_counts.items() if match_known(pid, k, known)}
     for k, v in stats.items():
         coverage[k] = v
     for k, v in extra.items():
@@ -568,4 +713,10 @@ def run_check(pid, tier):
     write_evidence(pid, tier, mod.LEVEL, coverage, wall, nviol, mod.ASSUMPTIONS)
     print(f"[{pid}] runs={merged['runs']} distinct={distinct} nontrivial={nontrivial} "
           f"violations={nviol} known={len(known_seen)} wall={wall:.1f}s", flush=True)
-    return EXIT_VIOLATION if nviol else EXIT_OK
+    if nviol:
+        return EXIT_VIOLATION
+    if not det_ok or unreproducible:
+        print(f"[{pid}] HARNESS: runs are not reproducible (determinism self-test ok={det_ok}, unreplayable signatures "
+              f"{unreproducible[:4]}) and no violation was pinned", flush=True)
+        return EXIT_HARNESS
+    return EXIT_OK
